@@ -20,15 +20,15 @@ import (
 // C04: a code yields tokens once, only to its client, redirect URI and PKCE proof.
 
 type pendingAuth struct {
-	id       string
-	client   string
-	browser  *world.Browser
-	redirect string
-	verifier string
-	method   string
-	nonce    string
-	state    string
-	scopes   []string
+	id        string
+	client    string
+	browser   *world.Browser
+	redirect  string
+	verifier  string
+	method    string
+	nonce     string
+	state     string
+	scopes    []string
 	viaObject bool
 }
 
